@@ -1,8 +1,10 @@
 (* C10 round trip: runs the extracted pretty-printer [print], the AST [ast_of] the printed text
-   denotes and [warnings_of] (C10/YpPrint.v) on a description of (fa, ag, lay).
+   denotes and [warnings_of] (C10/YpPrint.v) on a description of (fa, fp, ag, lay).
 
    case line (tokens separated by blanks):
-     <fa:0|1> <ndecls> decl*  <nrules> rule*  <programs>  <nlay> entry*
+     <fa:0|1>[<fp:0|1>] <ndecls> decl*  <nrules> rule*  <programs>  <nlay> entry*
+       (first token: "0", "1", "00", "01", "10", "11"; fa = repaired action span, fp = repaired
+        production span; a missing fp digit means 0)
      decl  := S <name> | T <n> <name>*n | L|R|N <n> <name>*n | E <name> <value> | A <n> <name>*n
             | X <hexnum> | Y <hexnum>                      (%expect / %expect-rr values, hex)
             | C <type>                                     (%actiontype)
@@ -21,8 +23,8 @@
      <path> := decimal indices joined by '.', the empty path is '-'   (the path scheme of YpPrint.v)
    layout defaults for paths without an entry: gap "", style bare, txt "", flag false.
 
-   result line:  x<hex of (print lay ag), UTF-8> # <transcript of (ast_of fa lay ag), no errors,
-   warnings (warnings_of fa lay ag)> — the transcript format of harness/src/bin/c10yp.rs
+   result line:  x<hex of (print lay ag), UTF-8> # <transcript of (ast_of fa fp lay ag), no errors,
+   warnings (warnings_of fa fp lay ag)> — the transcript format of harness/src/bin/c10yp.rs
    ([dump] below is a copy of the one in ocaml/c10yp/driver_body.ml). *)
 let unhex (s : string) : int list =
   (* hex -> bytes -> code points (input is valid UTF-8) *)
@@ -180,14 +182,16 @@ let n_of_hex (s : string) : n =
 let path_of (s : string) : int list =
   if s = "-" then [] else List.map int_of_string (String.split_on_char '.' s)
 
-let decode (toks : string list) : bool * agram * layout =
+let decode (toks : string list) : bool * bool * agram * layout =
   let cur = ref toks in
   let next () = match !cur with [] -> raise (Bad "short") | t :: r -> cur := r; t in
   let num () = int_of_string (next ()) in
   let rec many k f = if k <= 0 then [] else let x = f () in x :: many (k - 1) f in
   let name () = text_of (next ()) in
   let names () = let k = num () in many k name in
-  let fa = (next () = "1") in
+  let flags01 = next () in
+  let fa = (String.length flags01 >= 1 && flags01.[0] = '1') in
+  let fp = (String.length flags01 >= 2 && flags01.[1] = '1') in
   let sym () =
     match next () with
     | "r" -> ARule (name ())
@@ -248,14 +252,14 @@ let decode (toks : string list) : bool * agram * layout =
   let look tbl dflt (p : nat list) =
     match Hashtbl.find_opt tbl (List.map int_of_nat p) with Some v -> v | None -> dflt in
   let lay = { l_gap = look gaps []; l_q = look styles QBare; l_txt = look txts []; l_flag = look flags false } in
-  (fa, { ag_decls = decls; ag_rules = rules; ag_programs = progs }, lay)
+  (fa, fp, { ag_decls = decls; ag_rules = rules; ag_programs = progs }, lay)
 
 let () =
   iter_lines (fun line ->
     match (try Ok (decode (split_ws line)) with Bad m -> Error m | Failure m -> Error m | Invalid_argument m -> Error m) with
     | Error m -> "BADCASE " ^ m
-    | Ok (fa, ag, lay) ->
+    | Ok (fa, fp, ag, lay) ->
       let text = print lay ag in
-      let ast = ast_of fa lay ag in
+      let ast = ast_of fa fp lay ag in
       let errs : yerr list = [] in
-      xh text ^ " # " ^ dump ast errs (warnings_of fa lay ag))
+      xh text ^ " # " ^ dump ast errs (warnings_of fa fp lay ag))
